@@ -194,6 +194,23 @@ class A2:
     def derives_from_incoming(self, e, b):
         """the data operand of a handle aggregate comes from a pointer this function received
         (parameter, load of the data atom, field of self) rather than from a fresh allocation/tag"""
+        # a crate-local helper that builds the data word (`vec_data(repr)` = invalid_ptr(repr << .. | KIND_VEC)): look at
+        # what it returns, in terms of its arguments
+        from .flow import return_expr, subst_params
+        for _ in range(3):
+            sub = None
+            for x in walk(e):
+                if x[0] == "call" and x[1] not in ("bytes_mut::invalid_ptr",):
+                    cands = self.facts.by_id.get(x[1], [])
+                    if len(cands) == 1 and cands[0].kind in ("fn", "assoc_fn") and "unknown" not in str(return_expr(cands[0], self.facts, inline=False))[:40]:
+                        r = return_expr(cands[0], self.facts, inline=False)
+                        if any(y[0] == "call" and y[1] in ("bytes_mut::invalid_ptr", "core::ptr::null_mut") for y in walk(r)):
+                            sub = (x, subst_params(r, x[2]))
+                            break
+            if sub is None:
+                break
+            from .flow import _replace
+            e = _replace(e, lambda y, s0=sub: s0[1] if y == s0[0] else None)
         for x in walk(e):
             if x[0] == "call" and x[1] in ("alloc::boxed::Box::<T>::into_raw", "bytes_mut::invalid_ptr", "core::ptr::null_mut", "ptr_map"):
                 if x[1] == "ptr_map" or x[1] == "alloc::boxed::Box::<T>::into_raw" and False:
@@ -261,6 +278,8 @@ class A2:
                                     a = args[i] if i < len(args) else None
                                     if isinstance(a, tuple) and a[0] == "const":
                                         c2["init:%s" % a[1]] += n
+                                    elif isinstance(a, tuple) and a[0] == "param":
+                                        c2["init:param%d" % a[1]] += n      # handed on from this function's own caller
                                     else:
                                         c2["init:?"] += n
                                 elif k == "hout":
@@ -575,6 +594,8 @@ def run(facts):
             ii = inits(v)
             if not ii:
                 continue
+            if all(x.startswith("param") for x in ii):
+                continue            # hands its own parameter on: decided at this function's callers
             n_paths += 1
             key = "%s|passes count %s|%s" % (b.id, ",".join(ii), vec_str(v))
             want = str(1 + get(v, "dup"))
